@@ -335,7 +335,7 @@ def run(F, rep):
         'C11.D1|Units::clone|setImportSource(importSource())': 'clones share their import source with the original (known finding of C11); under C06 this is covered by origin SRC in C06.P1: flattening never writes an import source',
     }
     if not getattr(rep, 'nested', False):
-        c11.run(F, core.Borrowed(rep, exempt=exempt))
+        core.borrow(F, rep, c11, exempt=exempt)
 
     # ------------------------------------------------------------------ A: flags gathered over loops
     from engines import rule_accumulators
